@@ -231,3 +231,57 @@ def r5(ctx):
                             fs = ctx.facts_of(ev, e)
                             ok = any(f[0] == "bool" and f[2] is True and tag(f[1]) == "load" and "remove_on_drop" in show(f[1]) for f in fs)
                 yield Ob(key_of("C13-R5", b.path, "remove_file"), ok, "remove_file under the remove_on_drop flag inside unmount", b.loc(bi))
+
+
+@rule("C13-R6", "C13", lambda cfg: 2 if "memmap" in cfg else 0, "released exactly once: ptr::drop_in_place is applied to a field of a value only if the field's type opts out of the owner's own drop "
+      "(ManuallyDrop / MaybeUninit / raw pointer) - a plain field dropped in place is dropped a second time when its owner is dropped (Memory::unmount is followed by "
+      "the drop of the Box<Memory>: a File closed twice)")
+def r6(ctx):
+    n = 0
+    for b in ctx.facts.own:
+        if not any((t.get("callee") or "").endswith("ptr::drop_in_place") for _, t in b.calls()):
+            continue
+        ev, res = ctx.eval(b)
+        for e in res.log:
+            if e["kind"] != "call" or e.get("effect") != "drop_in_place" or e["chain"]:
+                continue
+            tgt = e["args"][0]
+            n += 1
+            if tag(tgt) == "ref" and tgt[1][0] == "heap" and tag(tgt[1][1]) == "param":
+                path = tgt[1][2]
+                fty = field_type(ctx, b, path)
+                ok = fty is not None and re.search(r"ManuallyDrop<|MaybeUninit<|^\*(mut|const) ", fty) is not None
+                yield Ob(key_of("C13-R6", b.path, "drop-in-place-of-owned-field:%s" % ".".join(p if isinstance(p, str) else p[1] for p in path)), ok,
+                         "drop_in_place(&mut self.%s): field type %s %s" % (".".join(p if isinstance(p, str) else p[1] for p in path), fty,
+                                                                          "opts out of the owner's drop" if ok else "is dropped again when the owner is dropped (double drop / double close)"), ctx.loc(e))
+            else:
+                yield Ob(key_of("C13-R6", b.path, "drop-in-place-through-pointer"), True, "drop_in_place through %s (MaybeUninit slot / raw pointer: not dropped by the owner)" % short(tgt, 60), ctx.loc(e), trivial=True)
+    if ctx.memmap:
+        yield Ob(key_of("C13-R6", "crate", "sites"), n >= 2, "%d drop_in_place site(s) examined" % n, None)
+
+
+def field_type(ctx, b, path):
+    """type of self.<path> by walking ADT field declarations from the self parameter's type"""
+    ty = b.locals[1]["ty"]
+    ty = re.sub(r"^&(mut )?('\w+ )?", "", ty)
+    cur_adt = ctx.facts.adts.get(re.sub(r"<.*$", "", ty))
+    variant = None
+    fty = None
+    for p in path:
+        if isinstance(p, tuple) and p[0] == "as":
+            variant = p[1]
+            continue
+        if cur_adt is None:
+            return None
+        vs = cur_adt["variants"]
+        v = [x for x in vs if variant is None or x.get("name") == variant]
+        variant = None
+        fty = None
+        for x in v:
+            for f in x["fields"]:
+                if f["name"] == p:
+                    fty = f["ty"]
+        if fty is None:
+            return None
+        cur_adt = ctx.facts.adts.get(re.sub(r"<.*$", "", fty))
+    return fty
